@@ -76,32 +76,84 @@ def serializeBack {α : Type} (c : Codec α) (t : PType) (b : BAcct α) : Except
         | .ok d => .ok { b with acct := { a1 with data := d } }
     else .ok b
 
-/-- `BorshAccount::reload`: `none` = panic (the slice `data[W..]` is out of range). -/
-def reload {α : Type} (c : Codec α) (t : PType) (b : BAcct α) : Option (Except Err (BAcct α)) :=
-  if !b.acct.borrow.canRead then some (.error .accountBorrowFailed)
-  else if b.acct.data.length < t.W then none
+/-- `BorshAccount::reload`: shared borrow, `data.get(W..)` (`AccountDataTooSmall` when the account is
+shorter than the discriminant), `try_from_slice`. -/
+def reload {α : Type} (c : Codec α) (t : PType) (b : BAcct α) : Except Err (BAcct α) :=
+  if !b.acct.borrow.canRead then .error .accountBorrowFailed
+  else if b.acct.data.length < t.W then .error .accountDataTooSmall
   else match c.de (b.acct.data.drop t.W) with
-    | some v => some (.ok { b with val := some v })
-    | none => some (.error .ioError)
+    | some v => .ok { b with val := some v }
+    | none => .error .ioError
 
-/-- The `#[cleanup]` variants of `BorshAccount`. `drained` = the account holds no lamports (it was
-closed earlier in this instruction), the only fact about lamports the rent variants need here. -/
-inductive Cleanup
-  | dflt                          -- `()`: serialize, then `check_cleanup` (a no-op)
-  | refundRent (drained : Bool)   -- `RefundRent<&Recipient>`: serialize, then `refund_rent` (lamports only)
-  | close (haveRecipient : Bool)  -- `CloseAccount<()>`: NO write-back; recipient from the `Context`
+/-- The three rent adjustments (`single_set.rs` `normalize_rent` / `receive_rent` / `refund_rent`):
+lamports-only operations, they never touch the account data. -/
+inductive RentOp
+  | normalize | receive | refund
 deriving Repr, DecidableEq
 
-def cleanup {α : Type} (c : Codec α) (t : PType) : Cleanup → BAcct α → Except Err (BAcct α)
-  | .dflt, b => serializeBack c t b
-  | .refundRent drained, b =>
+/-- Where the funder / recipient comes from: the cleanup argument (`Op(&x)`), the `Context` cache
+(`Op(())`) with something cached, or the cache with nothing in it. -/
+inductive Who
+  | arg | cached | cachedMissing
+deriving Repr, DecidableEq
+
+/-- EVERY `#[cleanup]` variant of `BorshAccount` (`borsh_account.rs` 35-113). `drained` = the account
+holds no lamports (it was closed earlier in this instruction): the only fact about lamports these
+variants need here (`refund_rent` on an account without lamports is `InsufficientFunds`; with a
+funded funder every other rent adjustment succeeds). -/
+inductive Cleanup
+  | dflt                                               -- `()`: serialize, then `check_cleanup` (a no-op)
+  | rent (op : RentOp) (who : Who) (drained : Bool)    -- `NormalizeRent` / `ReceiveRent` / `RefundRent`, `<&X>` or `<()>`
+  | close (haveRecipient : Bool)                       -- `CloseAccount<()>`: NO write-back; recipient from the `Context`
+deriving Repr, DecidableEq
+
+/-- The error of a missing cache entry. -/
+def RentOp.missing : RentOp → Err
+  | .normalize => .emptyFunderCache
+  | .receive => .emptyFunderCache
+  | .refund => .emptyRecipientCache
+
+/-- The lamports-only tail of a rent cleanup (after the write-back). -/
+def rentTail (op : RentOp) (drained : Bool) : Except Err Unit :=
+  if op = .refund ∧ drained = true then .error .insufficientFunds else .ok ()
+
+/-- A cleanup as the code runs it: the state it leaves (also when it fails) and its result.
+Order of the steps per variant, as written in the attribute list:
+* `()`, `Op(&x)`: `serialize()?` then the rent adjustment;
+* `NormalizeRent(())`: `serialize()?`, THEN the funder lookup (`EmptyFunderCache`), then the adjustment;
+* `ReceiveRent(())` / `RefundRent(())`: the cache lookup FIRST, then `serialize()?`, then the adjustment;
+* `CloseAccount(())`: recipient lookup, `close_account`; no `serialize()`. -/
+def cleanupFull {α : Type} (c : Codec α) (t : PType) :
+    Cleanup → BAcct α → BAcct α × Except Err Unit
+  | .dflt, b =>
     match serializeBack c t b with
-    | .error e => .error e
-    | .ok b' => if drained then .error .insufficientFunds else .ok b'
+    | .error e => (b, .error e)
+    | .ok b' => (b', .ok ())
+  | .rent op who drained, b =>
+    if who = .cachedMissing ∧ op ≠ .normalize then (b, .error op.missing)
+    else
+      match serializeBack c t b with
+      | .error e => (b, .error e)
+      | .ok b' =>
+        if who = .cachedMissing then (b', .error op.missing)
+        else (b', rentTail op drained)
   | .close r, b =>
     match cleanupClose t r b.acct with
-    | .error e => .error e
-    | .ok a => .ok { b with acct := a }
+    | .error e => (b, .error e)
+    | .ok a => ({ b with acct := a }, .ok ())
+
+/-- The successful outcome of a cleanup. -/
+def cleanup {α : Type} (c : Codec α) (t : PType) (k : Cleanup) (b : BAcct α) :
+    Except Err (BAcct α) :=
+  match cleanupFull c t k b with
+  | (b', .ok ()) => .ok b'
+  | (_, .error e) => .error e
+
+/-- The cache / lamports side of a cleanup succeeds (nothing to say about the write-back). -/
+def CleanOK : Cleanup → Prop
+  | .dflt => True
+  | .rent op who drained => who ≠ .cachedMissing ∧ ¬ (op = .refund ∧ drained = true)
+  | .close _ => False
 
 /-- `client.rs` `DeserializeBorshAccount::deserialize_account`: `check_discriminant` (too short or
 different → `DiscriminantMismatch`), then `try_from_slice` of the rest. -/
@@ -124,9 +176,10 @@ def applySets {α : Type} (b : BAcct α) : List α → Except Err (BAcct α)
     | .error e => .error e
     | .ok b' => applySets b' vs
 
-/-- One instruction over the account: decode, validate, any number of value changes, default
-cleanup; the result is what the next instruction is handed. -/
-def instr {α : Type} (c : Codec α) (t : PType) (a : Acct) (ws : List α) : Except Err Acct :=
+/-- One instruction over the account: decode, validate, any number of value changes, then the
+cleanup variant `k`; the result is what the next instruction is handed. -/
+def instr {α : Type} (c : Codec α) (t : PType) (a : Acct) (ws : List α) (k : Cleanup := .dflt) :
+    Except Err Acct :=
   match decodeAcct c t a with
   | .error e => .error e
   | .ok b =>
@@ -136,15 +189,15 @@ def instr {α : Type} (c : Codec α) (t : PType) (a : Acct) (ws : List α) : Exc
       match applySets b ws with
       | .error e => .error e
       | .ok b1 =>
-        match cleanup c t .dflt b1 with
+        match cleanup c t k b1 with
         | .error e => .error e
         | .ok b2 => .ok (nextIx b2.acct)
 
-/-- A history of instructions, each with its own list of value changes. -/
-def run {α : Type} (c : Codec α) (t : PType) : Acct → List (List α) → Except Err Acct
+/-- A history of instructions, each with its own list of value changes and its own cleanup variant. -/
+def run {α : Type} (c : Codec α) (t : PType) : Acct → List (List α × Cleanup) → Except Err Acct
   | a, [] => .ok a
-  | a, ws :: rest =>
-    match instr c t a ws with
+  | a, (ws, k) :: rest =>
+    match instr c t a ws k with
     | .error e => .error e
     | .ok a' => run c t a' rest
 
@@ -154,9 +207,9 @@ def leaves {α : Type} (v0 : α) : List α → α
   | w :: ws => leaves w ws
 
 /-- The value the whole history leaves. -/
-def leavesAll {α : Type} (v0 : α) : List (List α) → α
+def leavesAll {α : Type} (v0 : α) : List (List α × Cleanup) → α
   | [] => v0
-  | ws :: rest => leavesAll (leaves v0 ws) rest
+  | (ws, _) :: rest => leavesAll (leaves v0 ws) rest
 
 /-! ## Declarative side -/
 
@@ -177,10 +230,10 @@ within the runtime's per-instruction growth allowance. -/
 def StepOK {α : Type} (c : Codec α) (t : PType) (orig : Nat) (v : α) : Prop :=
   c.valid v ∧ 0 < c.objLen v ∧ t.W + c.objLen v ≤ orig + maxIncrease
 
-def ChainOK {α : Type} (c : Codec α) (t : PType) : Nat → α → List (List α) → Prop
+def ChainOK {α : Type} (c : Codec α) (t : PType) : Nat → α → List (List α × Cleanup) → Prop
   | _, _, [] => True
-  | orig, v0, ws :: rest =>
-    StepOK c t orig (leaves v0 ws) ∧
+  | orig, v0, (ws, k) :: rest =>
+    CleanOK k ∧ StepOK c t orig (leaves v0 ws) ∧
       ChainOK c t (t.W + c.objLen (leaves v0 ws)) (leaves v0 ws) rest
 
 end Account.Borsh
